@@ -1243,3 +1243,24 @@ VP("C07-R2C-mut-exit-inverted", "C07", "`if not refcount` inverted", "C07-R2C", 
    "        if not self.__refcount:\n            self.__key = None", "        if self.__refcount:\n            self.__key = None")
 VP("C07-R2C-mut-size-mismatch", "C07", "named size constant used by the generator only", "C07-R2C", ENC,
    "        if self.__key is None or len(self.__key) != KEY_SIZE:", "        if self.__key is None or len(self.__key) != 16:")
+VP("C08-R2C-mut-no-cycle", "C08", "generator XOR without cycle(): truncates to the key length", "C08-R2C", ENC,
+   "zip(bindata, cycle(self.__key))", "zip(bindata, self.__key)")
+VP("C08-R2C-mut-or-instead-of-xor", "C08", "generator combines with | instead of ^", "C08-R2C", ENC,
+   "bytes(b ^ k for b, k in", "bytes(b | k for b, k in")
+VP("C08-R2C-mut-helper-ecb", "C08", "shared _cipher helper switched to ECB (IV ignored)", "C08-R2C", ENC,
+   "            algorithms.AES(self.__key), modes.CBC(iv), backend=default_backend()\n        )\n\n    def decrypt",
+   "            algorithms.AES(self.__key), modes.ECB(), backend=default_backend()\n        )\n\n    def decrypt")
+VP("C09-R2C-mut-update-order", "C09", "two-step hashing: create feeds plaintext before salt", "C09-R2C", SEC,
+   "        hasher.update(salt)\n        hasher.update(_as_bytes(plaintext))\n        return DigestValue",
+   "        hasher.update(_as_bytes(plaintext))\n        hasher.update(salt)\n        return DigestValue")
+VP("C09-R2C-mut-challenge-no-salt", "C09", "two-step hashing: challenge forgets the salt", "C09-R2C", SEC,
+   "        hasher = self.algorithm(self.salt)\n", "        hasher = self.algorithm()\n")
+VP("C09-R2C-mut-swapped-components", "C09", "comprehension codec writes digest under 'salt'", "C09-R2C", SEC,
+   '(("salt", salt), ("digest", digest))', '(("salt", digest), ("digest", salt))')
+VP("C09-R2C-mut-unpack-order", "C09", "tuple unpacking in the wrong order", "C09-R2C", SEC,
+   "        salt, digest, _ = value", "        digest, salt, _ = value")
+VP("C09-R2C-mut-salt-size", "C09", "aliased digest size halved for the random salt", "C09-R2C", SEC,
+   "            salt = os.urandom(salt_size)", "            salt = os.urandom(salt_size // 2)")
+VP("C09-R2C-mut-conditional-update", "C09", "salt only mixed in for long plaintexts", "C09-R2C", SEC,
+   "        hasher.update(salt)\n        hasher.update(_as_bytes(plaintext))\n        return DigestValue",
+   "        if len(plaintext) > 4:\n            hasher.update(salt)\n        hasher.update(_as_bytes(plaintext))\n        return DigestValue")
